@@ -5,6 +5,7 @@ package main
 // path table of the top-level builder.
 
 import (
+	"go/token"
 	"fmt"
 	"go/types"
 	"sort"
@@ -49,6 +50,8 @@ type ValidatorTable struct {
 	Recv     string // name of the receiver parameter
 	Hdr      string
 	ErrsPhi  string
+	IdxPhi   string // the induction φ that walks the list: "rangeindex" for a range loop, the counter's name for `for i := 0; i < len(list); i++`
+	IdxOff   int    // the position visited is φ+IdxOff (1 for range loops, whose φ starts at -1)
 	Entry    []*Path
 	Iter     []*IterPath
 	Exit     []*Path
@@ -200,6 +203,63 @@ func buildValidatorTable(p *Prog, f *ssa.Function, field string) *ValidatorTable
 		t.Problems = append(t.Problems, "no loop-carried []error value found")
 		return t
 	}
+	// the induction variable: the header's guard is `φ+off < len(list)` with
+	// φ starting at -off and stepping by one
+	for h := range hdrs {
+		if len(h.Instrs) == 0 {
+			continue
+		}
+		br, ok := h.Instrs[len(h.Instrs)-1].(*ssa.If)
+		if !ok {
+			continue
+		}
+		cmp, ok := br.Cond.(*ssa.BinOp)
+		if !ok || cmp.Op != token.LSS {
+			continue
+		}
+		var phi *ssa.Phi
+		off := 0
+		switch xv := cmp.X.(type) {
+		case *ssa.Phi:
+			phi = xv
+		case *ssa.BinOp:
+			if c, isC := xv.Y.(*ssa.Const); isC && xv.Op == token.ADD && c.Value != nil && c.Value.ExactString() == "1" {
+				phi, _ = xv.X.(*ssa.Phi)
+				off = 1
+			}
+		}
+		ln, isCall := cmp.Y.(*ssa.Call)
+		if phi == nil || phi.Block() != h || !isCall {
+			continue
+		}
+		if b, isB := ln.Common().Value.(*ssa.Builtin); !isB || b.Name() != "len" || len(ln.Common().Args) != 1 || ln.Common().Args[0] != ssa.Value(f.Params[1]) {
+			continue
+		}
+		okInit := false
+		for j, e := range phi.Edges {
+			if h.Dominates(h.Preds[j]) {
+				continue
+			}
+			if c, isC := e.(*ssa.Const); isC && c.Value != nil && c.Value.ExactString() == fmt.Sprint(-off) {
+				okInit = true
+			} else {
+				okInit = false
+				break
+			}
+		}
+		if !okInit {
+			t.Problems = append(t.Problems, "the loop counter does not start at the first element")
+			continue
+		}
+		t.IdxPhi, t.IdxOff = phi.Comment, off
+		if t.IdxPhi == "" {
+			t.IdxPhi = phi.Name()
+		}
+	}
+	if t.IdxPhi == "" {
+		t.Problems = append(t.Problems, "the loop is not a walk over the list parameter (`for … range list` or `for i := 0; i < len(list); i++`)")
+		return t
+	}
 	x := p.NewExec(nil)
 	t.All = x.Summarize(f)
 	t.Problems = append(t.Problems, x.Problems...)
@@ -213,14 +273,42 @@ func buildValidatorTable(p *Prog, f *ssa.Function, field string) *ValidatorTable
 			t.Iter = append(t.Iter, t.iterPath(pa))
 		}
 	}
+	for _, ip := range t.Iter {
+		if v, ok := ip.NextV[t.IdxPhi]; ok && v != "bin:+(carried:"+t.IdxPhi+",1)" {
+			t.Problems = append(t.Problems, "an iteration does not advance the loop counter by exactly one: "+v)
+		}
+	}
 	return t
 }
+
+// idxTag is the tag of the position visited by an iteration.
+func (t *ValidatorTable) idxTag() string {
+	if t.IdxOff == 1 {
+		return "bin:+(carried:" + t.IdxPhi + ",1)"
+	}
+	return "carried:" + t.IdxPhi
+}
+
+// guardTag is the tag of the loop guard `position < len(list)`.
+func (t *ValidatorTable) guardTag() string {
+	return "bin:<(" + t.idxTag() + ",len:builtin.len(param:" + t.List + "))"
+}
+
+func (t *ValidatorTable) isGuardTag(g string) bool { return strings.HasPrefix(g, t.guardTag()) }
 
 func (t *ValidatorTable) phiKey(name string) string { return "loopphi:" + name + "@" + t.Hdr }
 
 // isElem: the term is the current range element list[i].
 func (t *ValidatorTable) isElem(x *Term) bool {
-	return x != nil && x.Op == "load" && x.Args[0].Op == "iaddr" && x.Args[0].Args[0].Key() == "param:"+t.List
+	if x == nil || x.Op != "load" || x.Args[0].Op != "iaddr" || x.Args[0].Args[0].Key() != "param:"+t.List {
+		return false
+	}
+	idx := x.Args[0].Args[1]
+	want := t.phiKey(t.IdxPhi)
+	if t.IdxOff == 1 {
+		want = "bin:+(" + want + ", 1)"
+	}
+	return t.IdxPhi == "" || idx.Key() == want
 }
 
 // tag gives a canonical provenance tag for a value on a validator path.
